@@ -54,6 +54,19 @@ class HumanMessageSerializer:
         first_line = True
         cur_block = None
         msg = None
+        # Packed values may need to look at other variables in their block to serialize
+        # themselves, those may not have been parsed yet. Serialize once the block is complete.
+        pending_packed = []
+
+        def _serialize_pending_packed():
+            # Plain enums and flags never depend on other variables, but are what the
+            # others usually switch on. Get their real values in place first.
+            standalone = (se.IntEnumSubfieldSerializer, se.IntFlagSubfieldSerializer)
+            pending_packed.sort(key=lambda x: not isinstance(x[2], standalone))
+            for block, var_name, serializer, val in pending_packed:
+                block[var_name] = serializer.serialize(block, val)
+            pending_packed.clear()
+
         lines = [x.strip() for x in string.split("\n") if x.strip()]
         while lines:
             line = lines.pop(0)
@@ -76,6 +89,7 @@ class HumanMessageSerializer:
                 continue
 
             if line.startswith("["):
+                _serialize_pending_packed()
                 cur_block = Block(re.search(r"\w+", line).group(0))
                 msg.add_block(cur_block)
             else:
@@ -129,9 +143,12 @@ class HumanMessageSerializer:
                     serializer = se.SUBFIELD_SERIALIZERS.get(ser_key)
                     if not serializer:
                         raise KeyError(f"No subfield serializer for {ser_key!r}")
-                    var_val = serializer.serialize(cur_block, var_val)
+                    pending_packed.append((cur_block, var_name, serializer, var_val))
+                    # Hold the variable's place in the block until we can serialize it
+                    var_val = None
 
                 cur_block[var_name] = var_val
+        _serialize_pending_packed()
         return msg
 
     @classmethod
